@@ -504,6 +504,32 @@ def str_method(eng, o, a):
             cased_lo = [z3.And(c >= 97, c <= 122) if not isinstance(c, int) else z3.BoolVal(chr(c).islower()) for c in ch]
             return SBool(z3.And(z3.Or(cased_up), z3.Not(z3.Or(cased_lo)))) if ch else False
         return S(isupper)
+    if a in ('isdigit', 'isdecimal', 'isnumeric', 'isalpha', 'isalnum', 'isspace', 'islower'):
+        def pred():
+            ch = sstr.chars_of(o)
+            if not ch:
+                return False
+            tests = {
+                'isdigit': lambda c: z3.And(c >= 48, c <= 57), 'isdecimal': lambda c: z3.And(c >= 48, c <= 57),
+                'isnumeric': lambda c: z3.And(c >= 48, c <= 57),
+                'isalpha': lambda c: z3.Or(z3.And(c >= 65, c <= 90), z3.And(c >= 97, c <= 122)),
+                'isalnum': lambda c: z3.Or(z3.And(c >= 48, c <= 57), z3.And(c >= 65, c <= 90), z3.And(c >= 97, c <= 122)),
+                'isspace': lambda c: z3.Or([c == w for w in sstr.WS]),
+            }
+            if a == 'islower':
+                up = [z3.And(c >= 65, c <= 90) if not isinstance(c, int) else z3.BoolVal(chr(c).isupper()) for c in ch]
+                lo = [z3.And(c >= 97, c <= 122) if not isinstance(c, int) else z3.BoolVal(chr(c).islower()) for c in ch]
+                return SBool(z3.And(z3.Or(lo), z3.Not(z3.Or(up))))
+            # ASCII model of the predicate (symbolic characters beyond ASCII are outside the claim)
+            conds = []
+            for c in ch:
+                if isinstance(c, int):
+                    if not getattr(chr(c), a)():
+                        return False
+                else:
+                    conds.append(z3.And(c < 128, tests[a](c)))
+            return SBool(z3.And(conds)) if conds else True
+        return S(pred)
     if a == 'format':
         raise Unsupported('str.format on symbolic')
     raise Unsupported('str.' + a)
@@ -745,7 +771,9 @@ def contains(frame, container, x):
         if isinstance(container, str) and isinstance(x, str):
             return x in container
         return sstr.contains(container, x)
-    if isinstance(container, dict) and (isinstance(x, tuple) and any(isinstance(e, Sym) for e in x) or
+    if isinstance(container, dict) and (isinstance(x, SInt) or any(isinstance(kk, (SInt, SStr)) for kk in container) or
+                                        (isinstance(x, SStr) and not x.is_concrete()) or
+                                        isinstance(x, tuple) and any(isinstance(e, Sym) for e in x) or
                                         any(isinstance(kk, tuple) and any(isinstance(e, Sym) for e in kk)
                                             for kk in container)):
         return frame._dict_find(container, x) is not None
